@@ -260,7 +260,7 @@ class Stage:
 
     def dead(self, stage, text, extra=None):
         why = self.drv.last_death or "?"
-        cls = "timeout" if why == "timeout" else "abort"
+        cls = "timeout" if str(why).startswith("timeout") else "abort"
         rep = {"pdl": text, "stage": stage, "death": why, "signature": {"stage": stage, "class": cls}}
         rep.update(extra or {})
         self.run.violation("impl", "the compiler %s in %s (%s)" % ("did not terminate within the time limit" if cls == "timeout" else "died", stage, why[:200]), rep)
